@@ -6,6 +6,7 @@ import FitProps.WriterCrashLemmas
 import FitProps.WriterShortLemmas
 import FitProps.WriterPanicLemmas
 import FitProps.WriterCtxLemmas
+import FitProps.WriterCtxCrashLemmas
 /-!
 # C11 — Destination failures surface as errors; incomplete output is never a valid file
 
@@ -526,6 +527,20 @@ theorem C11_ctx_cancel_surfaces {σ : Type} (V : MsgValidator σ) (cc : CtxCfg) 
       | some ms' =>
         simp only
         rcases encodeCtx_cancel cc F o k e { f with msgs := ms' } (hk ms' hv) with h | h <;> rw [h] <;> simp
+
+/-- A CANCELLED CALL LEAVES A CRASH STATE OF THE UNCANCELLED ONE, at an operation boundary. For every validator, EVERY fault
+schedule, option set, cancellation point `c` and encoder state (any destination kind, buffer size, content, position):
+under the same schedule the operations the destination has seen from `EncodeWithContext(ctx, fit)` are a PREFIX `ops1` of the
+operations `ops1 ++ ops2` it sees from `Encode(fit)`, each of them in full (same bytes, same count taken, same outcome) — the
+cancelled call's destination (content, position, log) is the replay of `ops1`, i.e. the state "the process stopped after
+operation `|ops1|`" of the uncancelled call. With `C11_fault_is_crash_prefix` every (cancellation, fault) combination is thus a
+crash state of the healthy, uncancelled `Encode`. -/
+theorem C11_ctx_cancel_is_crash_prefix {σ : Type} (V : MsgValidator σ) (cc : CtxCfg) (F : Faults) (o : Opts) (c : Ctx) (e : Enc)
+    (f : FitIn) :
+    ∃ ops1 ops2 : List DOp,
+      (encodeCtxV V cc F o c ⟨e, false⟩ f).1.e.w.d = e.w.d.run ops1 ∧
+      (encodeV V F o e f).1.w.d = e.w.d.run (ops1 ++ ops2) :=
+  encodeCtxV_prefix V cc F o c e f
 
 /-- not vacuous: an unbuffered WriteSeeker, two messages, the context cancelled before the second poll — the call returns
 `ctx.Err()`, the destination has seen the header write and the two writes of the first message (3 of the 8 operations of the
